@@ -151,17 +151,22 @@ def handleCore (st : St) (l : Line) : Option (St × List String) := do
       | "cached_chunk_subset" => pure (st, [optVal (cfg.retrieveChunkSubset st.st (← l.nl "c") (← parseSubset (← l.get "r")))])
       | "cached_subset" => pure (st, [optVal (cfg.retrieveArraySubset st.st (← parseSubset (← l.get "r")))])
       | "sharded_subset" => pure (st, [optVal (cfg.retrieveArraySubset st.st (← parseSubset (← l.get "r")))])
-      | "inner_chunk" =>
+      -- the typed / ndarray forms of the sharded extension: the same elements (an ndarray of another shape is reported
+      -- by the harness as `badshape`, which no prediction carries); data types without a typed form answer `untyped`
+      | "nd_sharded_subset" | "typed_sharded_subset" =>
+        pure (st, [optVal (cfg.retrieveArraySubset st.st (← parseSubset (← l.get "r"))), "untyped"])
+      | "inner_chunk" | "nd_inner_chunk" | "typed_inner_chunk" =>
         let ic ← l.nl "ic"; let ish ← l.nl "ishape"
         let r : Subset := ⟨zipMul ic ish, ish⟩
         let c ← cfg.grid.chunkIndices r.start
         let cs ← cfg.chunkSubset c
-        pure (st, [optVal (cfg.retrieveChunkSubset st.st c (r.relativeTo cs.start))])
-      | "inner_chunks" =>
+        pure (st, [optVal (cfg.retrieveChunkSubset st.st c (r.relativeTo cs.start))] ++ (if verb == "inner_chunk" then [] else ["untyped"]))
+      | "inner_chunks" | "nd_inner_chunks" | "typed_inner_chunks" =>
         let ib ← parseSubset (← l.get "ibox"); let ish ← l.nl "ishape"
         let r : Subset := ⟨zipMul ib.start ish, zipMul ib.shape ish⟩
-        if r.isEmpty then pure (st, ["val ~"]) else
-        pure (st, [optVal (cfg.retrieveArraySubset st.st r)])
+        let ut := if verb == "inner_chunks" then [] else ["untyped"]
+        if r.isEmpty then pure (st, ["val ~"] ++ ut) else
+        pure (st, [optVal (cfg.retrieveArraySubset st.st r)] ++ ut)
       | "inner_shape" =>
         let sh := (l.get "sh") == some "1"
         let eff ← l.get "eff"
